@@ -385,8 +385,11 @@ def elementwise(prog, ctx, E, wrappers):
         (L + 'natural_units::In_Units', lambda f: len(f.params) == 4 and f.params[1]['ty'].startswith('std::vector') and
          f.params[0]['ty'].startswith('std::vector<std::vector'), 'In_Units(table,dims)'),
         (L + 'Transpose_Lists', lambda f: len(f.params) == 1, 'Transpose_Lists(lists)'),
+        (L + 'Export_Table', lambda f: True, 'Export_Table(data,dims)', 1),
     ]
-    for q, sel, name in ragged:
+    for entry_ in ragged:
+        q, sel, name = entry_[:3]
+        outer_ix = entry_[3] if len(entry_) > 3 else 0
         fn = prog.fn(q, pred=sel)
         st = None
         for s2 in G.exit_sites(prog, fn, wrappers):
@@ -415,7 +418,7 @@ def elementwise(prog, ctx, E, wrappers):
                 except Undecided:
                     pass
         cl = sx.counted(lp[1], stt)
-        outer = fn.params[0]['name']
+        outer = fn.params[outer_ix]['name']
         n = sp.Symbol('len(%s)' % outer, integer=True, nonnegative=True)
         ok = False
         detail = 'loop not counted'
